@@ -15,6 +15,33 @@ CHECKS = {
  "C03": dict(cat="exploration", engine="model-sweep", technique="bounded exhaustive enumeration, complete iteration compared with brute-force solution set",
    text="Complete iteration of every model under each configuration/brancher yields exactly the reference solution set, each solution once; every prefix is checked.",
    note="as C01", ref="DESIGN.md §4 C03"),
+ "C04": dict(cat="exploration", engine="model-sweep", technique="bounded exhaustive enumeration of models x objective views x directions x procedures, brute-force optimum",
+   text="Strides of M1/M2/M3 x every variable x views (negative scale, offsets) x min/max x LinearSatUnsat/LinearUnsatSat x configurations/branchers: Optimal(s) is a solution with the brute-force optimal value, Unsatisfiable iff no solution, callbacks only see solutions.",
+   note="small-scope hypothesis; termination condition never fires", ref="DESIGN.md §4 C04"),
+ "C05": dict(cat="exploration", engine="model-sweep", technique="bounded exhaustive enumeration of assumption lists and solve histories, brute-force oracle for results and cores",
+   text="All assumption lists up to length 2 (3 thorough) over a predicate alphabet incl. out-of-domain and hole values, with and without (double) core extraction, followed by a plain satisfy; plus 2-step assumption histories on one solver. Solutions satisfy model+assumptions, unsat-under-assumptions only if truly so, cores are implied by the assumptions and inconsistent with the model, assumptions are not retained.",
+   note="own definition of a directly contradictory pair (no integer satisfies both)", ref="DESIGN.md §4 C05"),
+ "C07": dict(cat="exploration", engine="config-product", technique="full product of solver options x branchers on conflict-rich models, brute-force reference",
+   text="All 186 valid option combinations x branchers x conflict-rich models: verdict, complete solution set and optimum each equal the reference; counters show how often restarts, deletion, id reuse, no-learning backtracking actually fired.",
+   note="finite option alphabets chosen to make each mechanism fire on small models", ref="DESIGN.md §4 C07"),
+ "C09": dict(cat="exploration", engine="reif-sweep", technique="bounded exhaustive enumeration of (constraint, mode, literal status, fixing order) + scripted exploration with explanation tap",
+   text="Every constraint instance x {implied_by, reify, negation, negated reify} x literal status (free/true/false before/after, negative literal) x fixing orders; the solution set over (variables, literal) equals implication / equivalence / complement semantics; all 6 cumulative methods (144 options in thorough) under reification.",
+   note="only NegatableConstraint implementations are negated / fully reified", ref="DESIGN.md §4 C09"),
+ "C10": dict(cat="model_checking", engine="history-explorer", technique="explicit-state search over all API call histories up to a depth on the real Solver (states = history prefixes), reference model of the accumulated constraints",
+   text="All sequences of 4 (5 thorough) operations over a 30-operation API alphabet on one solver; after every operation: no panic/hang and the result equals the reference for everything accumulated so far (incl. blocking clauses of iterated solutions).",
+   note="no state merging (a Solver can neither be cloned nor hashed); fresh default brancher per solve", ref="DESIGN.md §4 C10"),
+ "C11": dict(cat="fault_enumeration", engine="interrupt-enumerator", technique="exhaustive enumeration of the poll index at which the termination condition fires (sticky and one-shot), for satisfy / iteration / both optimisation procedures",
+   text="For every case the polls N of the uninterrupted run are counted and the run is repeated for every k in 0..=N with the condition firing at poll k; the result is Unknown / best-so-far (a solution) / the correct definitive answer, and the same solver answers correctly when asked again without interruption.",
+   note="runs with more than 80 (400) polls are skipped and counted", ref="DESIGN.md §4 C11"),
+ "C12": dict(cat="exploration", engine="prefix-sweep", technique="bounded exhaustive enumeration of models x posting permutations x prefixes, brute-force bounds",
+   text="After every post of every permutation of every model the reported bounds of every variable and of 6 views and the literal values enclose all solutions of the prefix model, lie in the declared range and only tighten.",
+   note="sequence stops at the first reported infeasibility", ref="DESIGN.md §4 C12"),
+ "C16": dict(cat="exploration", engine="boundary-sweep", technique="exhaustive enumeration over a finite boundary alphabet of the 32-bit range, i128 reference",
+   text="Windows of <=3 values at 15 (23) anchors of the i32 range, coefficients and right-hand sides from the same alphabet; linear (1-2 terms), plus, times, division, absolute, maximum, element, binary relations; post result, solution set and optima are compared with unbounded arithmetic. Exhaustive over the alphabet, not over 2^32.",
+   note="harness built with overflow checks off (as a release build); many families of defects at the limits are listed as known findings", ref="DESIGN.md §4 C16"),
+ "C18": dict(cat="exploration", engine="brancher-sweep", technique="bounded exhaustive enumeration of all selector pairs and composite branchers x configurations x models, decisions observed in the engine",
+   text="All 14x14 selector pairs constructible through the public API plus default, dynamic and alternating branchers x 3 configurations (restarts forced) x models over all domain shapes, complete iteration; every proposed decision is over the brancher's variables and undecided; no decision only when all its variables are fixed; terminates with fully fixed solutions.",
+   note="MostConstrained is not constructible through the public API; decisions are read through the tap", ref="DESIGN.md §4 C18"),
  "C08": dict(cat="exploration", engine="cumulative-sweep", technique="bounded exhaustive enumeration of task sets x all 144 option combinations",
    text="All 2-task sets (and a 3-task family) over small alphabets of start domains/views, durations, usages and capacities under ALL 144 CumulativeOptions; the iterated solution set must equal the time-point reference semantics.",
    note="time-point semantics as documented; zero-duration tasks never run", ref="DESIGN.md §4 C08"),
